@@ -34,20 +34,20 @@ def run_history(tid, hist, threads=False):
     import websocket._handshake as HS
     HS.CookieJar.jar.clear()
     ev = [{"ev": "begin", "tid": tid, "i": 0}]
-    hist = [tuple(s) + (None, False)[len(s) - 4:] for s in hist]
+    hist = [tuple(s) + (None, False, False)[len(s) - 4:] for s in hist]      # (.., host option, redirect, wss)
     k = 0
     while k < len(hist):
         chain = [hist[k]]
         while chain[-1][5] and k + len(chain) < len(hist):
             chain.append(hist[k + len(chain)])
         specs = []
-        for j, (hi, di, ci, ui, oi, redir) in enumerate(chain):
+        for j, (hi, di, ci, ui, oi, redir, secure) in enumerate(chain):
             dlabels, dtext = DOMAINS[di]
             spec = dict(OKHEAD)
             spec["extra"] = ["Set-Cookie: %s=%s%s" % (n, v, "; Domain=" + dtext if dtext is not None else "") for n, v in COOKIES[ci]]
             if j + 1 < len(chain):
                 spec["status"] = 302
-                spec["location"] = "ws://%s/" % HOSTS[chain[j + 1][0]][1]
+                spec["location"] = "%s://%s/" % ("wss" if chain[j + 1][6] else "ws", HOSTS[chain[j + 1][0]][1])
             specs.append(spec)
         peers = []
 
@@ -55,7 +55,7 @@ def run_history(tid, hist, threads=False):
             p = HeadPeer(world, specs[min(len(peers), len(specs) - 1)], None)
             peers.append(p)
             return p
-        w = World(resolver={"*": ["10.1.1.1"]}, peer_factory=factory)
+        w = World(resolver={"*": ["10.1.1.1"]}, peer_factory=factory, fake_tls=True)
         user = USERS[chain[0][3]]
         oi = chain[0][4]
         with w:
@@ -66,7 +66,7 @@ def run_history(tid, hist, threads=False):
                 if oi is not None:
                     kw["host"] = HOSTS[oi][1]
                 try:
-                    ws.connect("ws://%s/" % HOSTS[chain[0][0]][1], **kw)
+                    ws.connect("%s://%s/" % ("wss" if chain[0][6] else "ws", HOSTS[chain[0][0]][1]), **kw)
                 except Exception as e:      # noqa   (a redirect as last step of a history: too many redirects etc.)
                     if len(peers) < len(chain):
                         raise
@@ -77,7 +77,7 @@ def run_history(tid, hist, threads=False):
                 th.join(20)
             else:
                 call()
-        for j, (hi, di, ci, ui, _oi, redir) in enumerate(chain):
+        for j, (hi, di, ci, ui, _oi, redir, _secure) in enumerate(chain):
             hlabels, htext = HOSTS[hi]
             dlabels, dtext = DOMAINS[di]
             req = bytes(peers[j].req).split(b"\r\n")
@@ -95,6 +95,39 @@ def run_history(tid, hist, threads=False):
     ev.append({"ev": "end", "tid": tid, "i": len(ev)})
     HS.CookieJar.jar.clear()
     return ev
+
+
+def app_history(tid, steps, cookie_opt):
+    """The same jar through a reconnecting WebSocketApp: every connection's response sets cookies, the connection is dropped, the
+    next opening handshake (same host) must carry exactly what the jar rule says - nothing the application object remembers."""
+    import websocket._handshake as HS
+    from .. import appworld
+    HS.CookieJar.jar.clear()
+    conns = []
+    for (di, ci) in steps:
+        dlabels, dtext = DOMAINS[di]
+        hdrs = ["Set-Cookie: %s=%s%s" % (n, v, "; Domain=" + dtext if dtext is not None else "") for n, v in COOKIES[ci]]
+        conns.append({"headers": hdrs, "events": [(50, ("text", "m")), (50, ("eof",))]})
+    conns.append({"events": [(50, ("close", 1000, b""))]})
+    sc = {"tid": tid, "conns": conns, "run": {"reconnect": 1}, "app_kw": {"cookie": cookie_opt} if cookie_opt else {}, "horizon": 60000,
+          "url_host": "x.a"}
+    log, _ = appworld.run_app(sc)
+    ev = [{"ev": "begin", "tid": tid, "i": 0}]
+    reqs = [e for e in log if e["ev"] == "request"]
+    for k, e in enumerate(reqs):
+        req = bytes(e["raw"]).split(b"\r\n")
+        ck = [l for l in req if l.lower().startswith(b"cookie:")]
+        sent = [x for x in ck[0].split(b":", 1)[1].strip().decode("latin-1").split("; ")] if ck else []
+        if len(ck) > 1:
+            sent = ["<two Cookie headers>"]
+        di, ci = steps[k] if k < len(steps) else (len(DOMAINS) - 1, 0)
+        dlabels, dtext = DOMAINS[di]
+        ev.append({"ev": "step", "tid": tid, "i": len(ev), "host": ["x", "a"], "user": cookie_opt or "", "sent": sent,
+                   "domain": dlabels if k < len(steps) else [], "cookies": [[n, v] for n, v in COOKIES[ci]] if k < len(steps) else [],
+                   "text": {"host": "x.a", "domain": dtext if (dtext is not None and k < len(steps)) else "(none)", "host_option": "(none)", "redirect": False}})
+    ev.append({"ev": "end", "tid": tid, "i": len(ev)})
+    HS.CookieJar.jar.clear()
+    return ev, len(reqs)
 
 
 def histories(rng, tier):
@@ -132,6 +165,13 @@ def histories(rng, tier):
                 out.append([(h1, di, ci, rng.randrange(2), None, True), (h2, nodom, 0, 0), (rng.randrange(len(HOSTS)), nodom, 0, 0)])
                 out.append([(h1, di, ci, 0, None, True), (h2, rng.randrange(len(DOMAINS)), rng.randrange(len(COOKIES)), 0, None, True),
                             (rng.randrange(len(HOSTS)), nodom, 0, 0), (rng.randrange(len(HOSTS)), nodom, 0, 0)])
+    # redirects that change the scheme (wss -> ws, ws -> wss, wss -> wss): the caller's cookie and the jar's cookies go to every hop
+    for s1 in (False, True):
+        for s2 in (False, True):
+            for di in (0, 3, nodom):
+                for h2 in (0, 1, 2):
+                    out.append([(0, di, rng.randrange(len(COOKIES)), 1, None, True, s1), (h2, nodom, 0, 1, None, False, s2),
+                                (rng.randrange(len(HOSTS)), nodom, 0, rng.randrange(2))])
     return out
 
 
@@ -156,6 +196,16 @@ def main(ctx):
     for i, h in enumerate(ths):
         hs.append(h)
         traces.append(run_history("t%d" % i, h, threads=True))
+    # through a reconnecting WebSocketApp (host x.a): cookies without Domain, for another domain, for a covering domain
+    k = 0
+    for steps in ([(len(DOMAINS) - 1, 0)], [(4, 0)], [(0, 0)], [(0, 3), (len(DOMAINS) - 1, 1)], [(3, 4), (0, 1)], [(4, 2), (4, 5)]):
+        for copt in ("", "u=9"):
+            t, nreq = app_history("a%d" % k, steps, copt)
+            k += 1
+            if nreq < len(steps) + 1:
+                ctx.machinery_error = "C20 app history made %d handshakes, expected %d" % (nreq, len(steps) + 1)
+            hs.append([("app",) + tuple(st) for st in steps] + [("app", copt)])
+            traces.append(t)
     d = tlc.scratch("c20_in")
     path = os.path.join(d, "cookie.ndjson")
     with open(path, "w") as f:
